@@ -6,6 +6,7 @@ import (
 	"github.com/gabriel-vasile/mimetype/internal/verifsim/core"
 	"github.com/gabriel-vasile/mimetype/internal/verifsim/inputs"
 	"github.com/gabriel-vasile/mimetype/internal/verifsim/lib"
+	"github.com/gabriel-vasile/mimetype/internal/verifsim/model"
 )
 
 // C14: extensions take priority, stay inside their parent, disturb nothing
@@ -90,6 +91,33 @@ func (c *c14) Plan(seed uint64, tier string, worker, workers, idx int) *Plan {
 			ops = append(ops, Op{Kind: "use", Slot: 1 + r.Intn(slot)})
 		}
 		return ops
+	}
+	if r.Chance(1, 6) {
+		// a chain of nested accepting extensions hanging at some level of one input's
+		// path: verdicts many levels below the root, long ancestor chains
+		in := universe[r.Intn(len(universe))]
+		x := lib.Header(in.Bytes(), p.Limit0)
+		path := pathOf(in.Fam)
+		var ops []Op
+		var last *model.Ext
+		for k, n := 0, r.Range(2, 6); k < n; k++ {
+			var e *model.Ext
+			if last == nil {
+				e = g.accepting(path[r.Intn(len(path))], x)
+			} else {
+				e = g.acceptingOn("", last, x)
+			}
+			last = e
+			ops = append(ops, Op{Kind: "extend", Ext: e})
+			ops = append(ops, Op{Kind: "detect", In: &in})
+			if r.Chance(1, 2) {
+				ops = append(ops, Op{Kind: "reader", In: &in, Del: randDelivery(r, len(in.Bytes()), 0)})
+			}
+			ops = append(ops, Op{Kind: "lookup", Name: e.Mime, Ext: e})
+		}
+		ops = battery(ops, r.Range(1, 4), false)
+		p.Tasks = [][]Op{ops}
+		return p
 	}
 	if !r.Chance(1, 4) {
 		// one task: exact expectations
